@@ -150,7 +150,7 @@ def build_traces(path, tier, seed):
 def run(tier, seed):
     rep = Report("C20", tier, seed)
     wd = workdir("C20")
-    maxlen = 5 if tier == "quick" else 6
+    maxlen = 5 if tier == "quick" else 7
     tab = os.path.join(wd, "table.txt")
     with warnings.catch_warnings():
         warnings.simplefilter("ignore")
